@@ -50,7 +50,8 @@ Witness(e) ==
 (* Model conformance (never a verdict): the algorithm-level model of the builders predicts     *)
 (* exactly the observed pattern of equal / different keys inside the group.                     *)
 Drift(e) ==
-    LET mk == [x \in DOMAIN e.items |-> Key(e["in"].items[x], FALSE)]
+    e["in"].model /\
+    LET mk == [x \in DOMAIN e.items |-> Key(e["in"].items[x], {})]
         both == { <<mk[x], e.keys[x]>> : x \in DOMAIN e.items }
     IN ~(/\ Cardinality(both) = Cardinality({ mk[x] : x \in DOMAIN e.items })
          /\ Cardinality(both) = Cardinality({ e.keys[x] : x \in DOMAIN e.items }))
